@@ -61,6 +61,9 @@ theorem readIriRaw_write (s rest : Str) (h : iriOK s = true) :
     readIriRaw ('<' :: s ++ '>' :: rest) = some (s, rest) := by
   simp [readIriRaw, splitAt?_append '>' s rest (iriOK_gt h), h]
 
+theorem readIriRaw_write' (s rest : Str) (h : iriOK s = true) :
+    readIriRaw ('<' :: (s ++ '>' :: rest)) = some (s, rest) := readIriRaw_write s rest h
+
 theorem wTerm_iri (s : Str) (h : iriOK s = true) : wTerm (.iri s) = some ('<' :: s ++ ['>']) := by
   simp [wTerm, iriOK_valid h]
 
